@@ -294,7 +294,7 @@ def report(prop, tier, seed, results, extra, trusted, t0, rebaseline, verbose):
             known_lines.append((kf[0], o))
             discharged += 1      # the residual obligation stands in for it
             continue
-        if st == 'refuted':
+        if st == 'refuted' and '.dup.' not in o['name']:
             problems['refuted'].append(o)
         else:
             problems['undecided'].append(o)
